@@ -272,6 +272,50 @@ def run_scenario(name, checker):
                     log.append(["ret", list(r) if isinstance(r, tuple) else r])
                 except BaseException as e:  # noqa
                     log.append(["exc", type(e).__name__])
+        elif name == "wraps_metadata":
+            # a second implementation copies the metadata of an already decorated function with functools.wraps (it does not call it) and
+            # is then decorated itself: it is a decorated function in its own right
+            import functools
+
+            @dec
+            def add(x: Float[A, "n"], y: Float[A, "n"]):
+                return 0
+
+            @functools.wraps(add)
+            def add_fast(x: Float[A, "n"], y: Float[A, "n"]):
+                return 1
+            add_fast = dec(add_fast)
+            for step in (lambda: add_fast(np.zeros((3,), "float32"), np.zeros((1,), "float32")), lambda: add_fast(np.zeros((3,), "float32"), np.zeros((3,), "float32")),
+                         lambda: add(np.zeros((3,), "float32"), np.zeros((4,), "float32"))):
+                try:
+                    log.append(["ret", step()])
+                except BaseException as e:  # noqa
+                    log.append(["exc", type(e).__name__])
+        elif name == "truediv":
+            # symbolic axes are Python expressions: n/2 is a float, equal to an integer size only when the division is exact
+            def mk(ret_dim):
+                @dec
+                def halve(x: Float[A, "n"], k: int) -> Float[A, ret_dim]:
+                    return np.zeros((k,), "float32")
+                return halve
+            h1, h2 = mk("n/2"), mk("n*0.5")
+            for step in (lambda: h1(np.zeros((6,), "float32"), 3).shape, lambda: h1(np.zeros((7,), "float32"), 4).shape, lambda: h1(np.zeros((5,), "float32"), 2).shape,
+                         lambda: h2(np.zeros((9,), "float32"), 4).shape, lambda: h2(np.zeros((8,), "float32"), 4).shape):
+                try:
+                    log.append(["ret", list(step())])
+                except BaseException as e:  # noqa
+                    log.append(["exc", type(e).__name__])
+        elif name == "forward_ref":
+            # quoted references to a module-level class nested inside generics (Optional["Node"], list["Node"]): resolved in the function's own
+            # module, like the plain function's annotations are
+            g = {"dec": dec, "typing": __import__("typing"), "LOG": log}
+            exec("class Node:\n    pass\n\n@dec\ndef link(x: typing.Optional['Node'], n: int) -> int:\n    return n\n\n"
+                 "@dec\ndef many(xs: typing.List['Node'], d: typing.Dict[str, 'Node']) -> int:\n    return len(xs) + len(d)\n", g)
+            for step in (lambda: g["link"](g["Node"](), 1), lambda: g["link"](None, 2), lambda: g["many"]([g["Node"]()], {"a": g["Node"]()})):
+                try:
+                    log.append(["ret", step()])
+                except BaseException as e:  # noqa
+                    log.append(["exc", type(e).__name__])
         elif name == "union_greedy":
             # two parameters annotated Union[Float "n", Float "n+1"]: x=(4,), y=(3,) has the consistent assignment n=3 (y: "n", x: "n+1")
             import typing
@@ -288,6 +332,10 @@ def run_scenario(name, checker):
                     log.append(["exc", type(e).__name__])
         return log
     out = {"scenario": name, "checker": checker, "plain": program(lambda f: f), "wrapped": program(jaxtyped(typechecker=tc))}
+    if name == "wraps_metadata":
+        out["expected"] = [["exc", "TypeCheckError"], ["ret", 1], ["exc", "TypeCheckError"]]
+    if name == "truediv":
+        out["expected"] = [["ret", [3]], ["exc", "TypeCheckError"], ["exc", "TypeCheckError"], ["exc", "TypeCheckError"], ["ret", [4]]]
     if name == "union_greedy":
         out["expected"] = [["ret", 0], ["ret", 0], ["exc", "TypeCheckError"]]
     if name == "alias_generator":
